@@ -16,7 +16,7 @@ PROPS = {
   'rule': 'generated directories (0..1000 entries; multi-byte deltas/offsets up to 2^62, lengths and run lengths up to 2^32-1, '
           'contiguous, shared and scattered offsets) serialized by the implementation (none and gzip) and by the independent spec encoder '
           '(with and without the shorthand), decoded by both; plus unsorted lists and malformed inputs (truncated, corrupted, overlong varints, '
-          'counts the data does not back). Non-trivial: more than one entry and at least one multi-byte varint, or unsorted/malformed; distinct by case line',
+          'counts the data does not back); a gzip directory must be a complete gzip member for a reader that inflates the whole stream. Non-trivial: more than one entry and at least one multi-byte varint, or unsorted/malformed; distinct by case line',
   'trusted_base': [GZIP + '; the gzip round trip is the Section hypothesis decomp (comp b) = Some b of C03_roundtrip',
                    'wire_repr (coq/Model/Directory.v) is the transcription of the v3 specification of the directory encoding'],
   'assumptions': ['gzip.NewWriter/NewReader round-trip (exercised by the harness on every gz case, not verified)'],
@@ -50,7 +50,7 @@ PROPS = {
   'rule': '(a) findTile on generated directories (0..12 entries, runs, pointers, shared offsets, ids up to and beyond 2^63) at boundary queries '
           '(first/last id of each run, one before/after, offsets of 2^8/2^16/2^32/2^33 from each entry); (b) whole archives built by the harness '
           '(root-only to three leaf levels, mixed directories, uneven depth, gzip/none, dense and sparse, high zooms) queried through Server.Get and the CLI tile '
-          'command at the same boundary ids; (c) directories of 12,000..16,000 entries (more than 64 KiB decoded), root-only under gzip and as leaves under gzip/none, queried at first/last/middle/absent ids. Non-trivial: directory with > 1 entry / archive with >= 1 leaf level; distinct by case line',
+          'command at the same boundary ids; (c) directories of 12,000..16,000 entries (more than 64 KiB decoded), root-only under gzip and as leaves under gzip/none, queried at first/last/middle/absent ids; the tile type of the header runs over 0 (unknown/other: any extension is served) and the five known types, the request carrying the matching extension. Non-trivial: directory with > 1 entry / archive with >= 1 leaf level; distinct by case line',
   'trusted_base': [GZIP, 'modelled, not verified: the event loop/caching between handler and bucket (C08/C09), net/http'],
   'assumptions': ['archives are well formed (wftree): directories strictly ascending, runs end before the next entry, leaf ids between the pointer id and the next entry id, at most three leaf levels'],
   'explanation': 'C04_find_tile_spec and C04_walk(_server) hold for every well-formed tree and every id < 2^63; the loop bounds of both Go walks are regenerated from the source; '
@@ -108,7 +108,7 @@ PROPS = {
   'rule': 'every (offset, length) pair on objects of 0/1/5/8 bytes (thorough: up to 300) incl. crossing and beyond the end and zero length, x {unconditioned, current tag, stale tag}, '
           'on the in-memory, local-directory (through OpenBucket file://) and HTTP (through OpenBucket http:// against an RFC 7232/7233 origin) backends; missing objects; replacement '
           'histories (rewrite and rename-over, same and different sizes, mtimes differing by 1 ns / within one second / by seconds / backwards, repeated contents) observed as tag equality classes '
-          'and stale-read refusals; HTTP faults (connection refused, reset, 204/301/403/404/412/416/500/503). Non-trivial: non-empty object or fault; distinct by case line',
+          'and stale-read refusals; HTTP faults (connection refused, reset, 204/301/403/404/412/416/500/503); the cloud adapter (BucketAdapter) through a real gocloud blob.Bucket over a stand-in provider driver in an Azure and an S3 flavour (If-Match honoured, provider error types wrapped by gocloud as in production): exact bytes, tag change on replacement, stale-tag refusal, missing object. Non-trivial: non-empty object or fault; distinct by case line',
   'trusted_base': ['the OS file API (ReadAt, Stat, rename) and that the harness can set mtimes with Chtimes; the loopback origin is net/http.ServeContent',
                    'tags are compared as equality classes: xxhash64 no-collision on the (mtime,size) pairs / contents of one history',
                    'the cloud adapter (gocloud) is modelled only through its status classification'],
@@ -120,7 +120,7 @@ PROPS = {
   'rule': 'archives over all tile types (incl. unknown 0/6/255) x tile compressions (incl. unknown) x zoom ranges, shared contents, metadata with unicode/nesting/HTML characters or {}, '
           'negative bounds, with and without public URL; requests: stored and absent tiles, zoom out of range, wrong extension, unknown archive, metadata, TileJSON, "/", unknown paths; '
           'methods GET/HEAD/POST/DELETE/OPTIONS/PUT; conditional headers If-None-Match (same/other/*) and If-Match (same/other). ETags compared across all responses of the run. '
-          'Every 200 tile response is also judged against the mapping tile type -> Content-Type, tile compression -> Content-Encoding written down in the harness (internal compression gzip/none varies independently). All cases non-trivial; distinct by case line A third of the archives carry metadata that is not a fixed point of JSON re-encoding (unsorted keys, whitespace, HTML characters, integers beyond 2^53, exponent notation); the metadata endpoint must return the stored bytes.',
+          'TileJSON responses are judged independently of the model: tiles template = public URL (with scheme) / name / {z}/{x}/{y}.ext, zooms, bounds and center equal to those of the header. Every 200 tile response is also judged against the mapping tile type -> Content-Type, tile compression -> Content-Encoding written down in the harness (internal compression gzip/none varies independently). All cases non-trivial; distinct by case line A third of the archives carry metadata that is not a fixed point of JSON re-encoding (unsorted keys, whitespace, HTML characters, integers beyond 2^53, exponent notation); the metadata endpoint must return the stored bytes.',
   'trusted_base': ['net/http.ServeContent (conditional evaluation transcribed in Model/Http.v), httptest.ResponseRecorder', 'encoding/json and Go float formatting: TileJSON numbers are compared after rounding to E7',
                    'xxhash64: "different bodies => different ETag" is checked on the bodies of one run (no-collision assumption)',
                    'content type of archives with an UNKNOWN tile type is sniffed by net/http and not compared'],
@@ -132,7 +132,7 @@ PROPS = {
   'uses_generated': True,
   'rule': 'schedules over 1..3 archives (root-only to two leaf levels, mixed directories, gzip/none) and 2..7 concurrent tile requests (stored / absent tiles, wrong extension, missing archive) with a random '
           'release order of the blocked bucket calls; after every macro step the set of blocked calls and the completed requests of the real server are compared with the model. '
-          'Half as many schedules again start from a warm cache, replace the archive (1..3 times) and then run 2..5 concurrent requests, whose refused stale reads all purge and refetch; the coalescing oracle (no two identical header/directory fetches outstanding at once) judges every step. Non-trivial: more than two requests; distinct by case line',
+          'Four runs serve an archive whose leaf directories do not parse and ask the same tile three times (the warm answers must equal the cold one). Half as many schedules again start from a warm cache, replace the archive (1..3 times) and then run 2..5 concurrent requests, whose refused stale reads all purge and refetch; the coalescing oracle (no two identical header/directory fetches outstanding at once) judges every step. Non-trivial: more than two requests; distinct by case line',
   'trusted_base': ['the Go scheduler, channel semantics and real time are abstracted to an interleaving LTS at the granularity of loop messages and bucket calls (coq/Model/Server.v)',
                    'the scheduling bucket of the harness stands for the bucket contract of the property (tag per version, conditional reads honoured)',
                    'quiescence of the real server is detected from goroutine states (runtime.Stack)', GZIP],
@@ -144,7 +144,7 @@ PROPS = {
   'rule': 'schedules with 1..2 archives, warm or cold cache, 2..6 tile requests and 0..3 replacements (new versions with different sizes, layouts, leaf structures; occasional deletion) placed before or between '
           'the releases of blocked bucket calls; systematic schedules: one tile request, every placement of up to two replacements among its bucket calls x cold/warm cache x with/without a replacement completed beforehand, '
           'versions sharing tile ids and tile type but not layout; micro schedules: the event loop held inside the trace sink at one request\'s header lookup while another request\'s purging retry queues up '
-          '(oracle only, the executable model is macro-step). About one request in seven is a metadata or TileJSON request; every 200 is observed with its Content-Type/Content-Encoding; sequential request/replace sequences on the real local-directory and HTTP buckets (their own version tags; on the local directory the versions of every other run have equal file sizes and successive versions are published within the same second with different sub-second modification times); calls blocked with identical arguments are released together. Non-trivial: at least one replacement; distinct by case line',
+          '(oracle only, the executable model is macro-step). About one request in seven is a metadata or TileJSON request; every 200 is observed with its Content-Type/Content-Encoding; sequential request/replace sequences on the real local-directory and HTTP buckets (their own version tags; on the local directory the versions of every other run have equal file sizes, those of the remaining runs shrink so that a read at the offsets of an older version runs past the end of the new file - the tile stored last is asked first after the replacement - and successive versions are published within the same second with different sub-second modification times); calls blocked with identical arguments are released together. Non-trivial: at least one replacement; distinct by case line',
   'trusted_base': ['the Go scheduler, channel semantics and real time are abstracted to an interleaving LTS at the granularity of loop messages and bucket calls (coq/Model/Server.v)',
                    'the scheduling bucket of the harness stands for the bucket contract of the property (tag per version, conditional reads honoured)',
                    'quiescence of the real server is detected from goroutine states (runtime.Stack)', GZIP],
@@ -175,7 +175,7 @@ PROPS = {
  },
  'C19': {
   'rule': 'MergeRanges plans (any tie-breaking) on range lists with tied and distinct gaps, monotone and with backward jumps, lengths up to 2^24+2^20, overfetch from the fixed set and random, checked by the proved '
-          'plan checker plan_ok and by the transfer oracle; end to end over HTTP: the Range requests the loopback origin received (inside their sections, at most (1+overfetch) x needed, exactly needed at 0, nothing twice). '
+          'plan checker plan_ok and by the transfer oracle; end to end over HTTP: the Range requests the loopback origin received (inside their sections, at most (1+overfetch) x needed, exactly needed at 0, nothing twice), half of the sources with scattered ranges under overfetch 0.2..2.5 and a leaf level, so that which gaps are bridged depends on the budget to the byte. '
           'Non-trivial: more than two ranges or end to end; distinct by case line',
   'trusted_base': ['Flocq (float32 budget) as for C07', GZIP, 'the loopback origin logs every Range header it receives'],
   'assumptions': [],
@@ -235,7 +235,7 @@ PROPS = {
  'C16': {
   'rule': 'regions: boxes (random and on tile edges of zooms 2..5 / the equator), convex and concave polygons, polygons with a hole, disjoint and overlapping multipolygons, long oblique quadrilaterals, as bbox text, '
           'Polygon/MultiPolygon geometry, Feature and FeatureCollection, coordinates with four decimals; zoom 2..7 x minimum zoom 0..zoom through the exported region -> tile-ID-set computation; '
-          'end to end through Extract on a full source pyramid z0..3. Oracles with the harness\'s own Web-Mercator geometry over every tile of every zoom in range. All cases non-trivial; distinct by case line',
+          'end to end through Extract on a full source pyramid z0..5 (deep enough for tiles all of whose descendants are interior). Oracles with the harness\'s own Web-Mercator geometry over every tile of every zoom in range. All cases non-trivial; distinct by case line',
   'trusted_base': ['orb (tilecover, planar point-in-polygon, Mercator projection, GeoJSON parsing): NOT verified; it enters the theorems as the boundary list and the inside predicate with the hypothesis H_cover; '
                    'the harness checks both against its own geometry (edge sampling at 1/16 tile, even-odd ray casting, point-segment distances) on every case',
                    'roaring64 bitmaps modelled as ascending duplicate-free lists', 'Flocq binary64 for the header bounds/centre (truncating int32(f*1e7) of the bounding box and of its float64 midpoint)'],
